@@ -1512,6 +1512,35 @@ def check_pipeline(repo: Repo, rep: Report, rules: Dict[str, str]):
         elif len(snaps) >= 2 and snaps[-1] != snaps[-2]:
             for dmsg in _struct_diffs(snaps[-2], snaps[-1]):
                 probs["fixpoint"].append("a second conversion changes the document: " + dmsg)
+    # the engine refuses an operation (skia-pathops raises PathOpsError on some outlines): the conversion may end in that exception,
+    # but if it returns, what it returns is a picosvg all the same (an evenodd path left as it was is not)
+    for fname in ("remove_overlaps", "intersection", "union"):
+        def failing(it, fname=fname):
+            from sa.sym import PyRaise
+
+            def fail(i, a, k):
+                raise PyRaise("PathOpsError", None, f"injected: the engine fails in {fname}")
+            it.hooks[("svg_pathops", fname)] = fail
+
+        def body(it, a, k):
+            it.call(method_of(repo, "svg", "SVG", "topicosvg"), [a[0]], dict(k))
+            return a[0]
+        from sa.sym import method_of
+        fouts = ok_outcomes(run(repo, body, lambda: ([make_svg(_pipeline_doc())], {"inplace": True, "ndigits": 3}), setup_extra=failing, max_paths=64, area=_pipeline_area), F)
+        for o in fouts:
+            n_runs += 1
+            if o.raised:
+                continue
+            root = o.args[0].f["svg_root"]
+            for n in root.subtree():
+                if not isinstance(n.tag, str):
+                    continue
+                if str(n.attrib.get("fill-rule", "nonzero")) != "nonzero":
+                    probs["grammar"].append(f"when the engine fails in {fname} the conversion still returns, and {n.attrib.get('id')} keeps fill-rule evenodd")
+                if n.local() == "path" and any(k in n.attrib for k in ("clip-path", "stroke", "transform")):
+                    probs["grammar"].append(f"when the engine fails in {fname} the conversion still returns, and path {n.attrib.get('id')} keeps {sorted(k for k in ('clip-path', 'stroke', 'transform') if k in n.attrib)}")
+                if n.local() in ("clipPath", "use", "rect", "circle"):
+                    probs["grammar"].append(f"when the engine fails in {fname} the conversion still returns, and <{n.local()}> survives")
     # a document without a view box: what is judged is that it ends, and how references look at the end
     outs, _ = run_pipeline(repo, ndigits=3, passes=1, doc=_nobox_doc)
     for o in outs:
